@@ -53,8 +53,9 @@ RULE = ("generated source trees (depth <= 4, fan-out <= 4, adversarial names, re
 def suites(tier: str, seed: int) -> List[Suite]:
     site = SC.site_suite()
     hist = SC.history_suite()
+    big = SC.big_site_suite()
     if tier == "replay":
-        return [site, hist]
+        return [site, hist, big]
     if tier == "quick":
         plan = [("valid", "small", 8), ("valid", "medium", 22), ("valid", "deep", 6), ("errors", "small", 6),
                 ("max-servings", "small", 4), ("errors", "medium", 6), ("f12", "small", 3), ("valid", "bigM", 5), ("title-with-scaled-value", "small", 2),
@@ -71,7 +72,10 @@ def suites(tier: str, seed: int) -> List[Suite]:
     # rebuild INTO THE SAME OUTPUT DIRECTORY after quantities were edited / prose deleted and with M or M + 1: content,
     # scaling and menus of the edited tree (page oracle on the result + fresh-process comparison)
     hist.cases += SC.gen_rebuild_history_cases(seed, 8 if tier == "quick" else 120, "C15")
-    return [site, hist]
+    # a tiny tree with a recipe written for more than 256 servings (~600 pages): exactly the promised files, no extra
+    # assets/<recipe>.md
+    big.cases = SC.gen_big_m_cases(seed + 1, 1 if tier == "quick" else 4, "C15")
+    return [site, hist, big]
 
 
 def replay(inp: Any) -> Case:
